@@ -524,6 +524,10 @@ def rule_listbox_zero_row_items(ctx: Ctx) -> RuleResult:
             continue
         w = src.value.func.value.id
         rec = [c for st in n.orelse for c in ast.walk(st) if isinstance(c, ast.Call) and isinstance(c.func, ast.Attribute) and c.func.attr == "append" and isinstance(c.func.value, ast.Attribute) and c.args and isinstance(c.args[0], ast.Name) and c.args[0].id == w]
+        # the same written as a test of its own: `if not <rows>: <record>.append(<item>)`
+        for m2 in cv.own_nodes():
+            if isinstance(m2, ast.If) and isinstance(m2.test, ast.UnaryOp) and isinstance(m2.test.op, ast.Not) and isinstance(m2.test.operand, ast.Name) and m2.test.operand.id == rows_name:
+                rec += [c for st in m2.body for c in ast.walk(st) if isinstance(c, ast.Call) and isinstance(c.func, ast.Attribute) and c.func.attr == "append" and isinstance(c.func.value, ast.Attribute) and c.args and isinstance(c.args[0], ast.Name) and c.args[0].id == w]
         rr.inst(f"filter `if {rows_name}:`", True, {"filter": norm(n.test, 20), "item": w, "recorded_in": ast.unparse(rec[0].func.value) if rec else None})
         if rec:
             records.add(rec[0].func.value.attr)
@@ -625,6 +629,7 @@ def run(ctx: Ctx):
 from ..mutants import Mut  # noqa: E402
 
 MUTANTS = [
+    Mut("twin-listbox-zero-row-record-own-test", "urwid/widget/listbox.py", "ListBox.calculate_visible", "            else:\n                self._zero_row_items.append(next_pos)\n", "            if not n_rows:\n                self._zero_row_items.append(next_pos)\n", twin=True),
     Mut("cleanup-del-after-get", "urwid/canvas.py", "CanvasCache.cleanup", "        w = cls._refs.pop(ref, None)\n", "        w = cls._refs.get(ref, None)\n        del cls._refs[ref]\n", "GUARD|canvas.CanvasCache.cleanup|cleanup: unprotected del after .get() of the same key"),
     Mut("listbox-zero-row-item-not-recorded", "urwid/widget/listbox.py", "ListBox.calculate_visible", "            else:\n                self._zero_row_items.append(next_pos)\n", "", "HIDDEN-DEP|widget.listbox.ListBox.calculate_visible|zero-row filter on n_rows without a record"),
     Mut("listbox-zero-row-items-not-declared", "urwid/widget/listbox.py", "ListBox.render", "        if self._zero_row_items:\n", "        if False:\n", "HIDDEN-DEP|widget.listbox.ListBox.render|ListBox.render does not declare the zero-row items", also=[("*self._zero_row_items]", "]")]),
